@@ -112,6 +112,13 @@ def assume_spec_shape(eng, st, v):
                         patterns=[clsattr(cq, sq)]))
 
 
+def ground_attr_facts(eng, st, v, name):
+    """ground instance (for the attribute actually looked up) of 'attrs maps names to well-formed Attr records'"""
+    man, aspec = managed(eng, st, v, name)
+    st.assume(z3.Implies(man, z3.And(wf_attr(st, aspec), fld(st, aspec, "name") == name)))
+    st.assume(*kn_axioms([name]))
+
+
 def ground_invmap_facts(eng, st, v, keys):
     """ground instances (for the keys actually looked up) of 'the invalidation map maps names to sets'"""
     im = a_of(invmap(eng, st, v))
@@ -442,11 +449,49 @@ def unchanged_obj(pre, post, v):
     return post.get("idict", a_of(v)) == pre.get("idict", a_of(v))
 
 
+DV = z3.Function("default_value", Val, Val, Val)     # (Attr record, class): the default a new instance of the class receives
+NODEF = z3.Function("no_default", Val, Val, B)       # ... there is none (the attribute stays missing)
+
+
+def klass(eng, st, obj):
+    return vcls(eng.type_of(st, obj))
+
+
 def cleared(eng, st, obj, k):
     """C11: the dependant k (a name) is cleared on obj: its slot is gone, or it is back at its default"""
     x = z3.Select(st.get("idict", a_of(obj)), s_of(k))
     man, aspec = managed(eng, st, obj, k)
-    return z3.Or(is_absent(x), z3.And(man, deq(x, fld(st, aspec, "default"))))
+    return z3.Or(is_absent(x), z3.And(man, deq(x, DV(aspec, klass(eng, st, obj)))))
+
+
+class LookupDefaultAssumed(Contract):
+    """Attr.lookup_default_value(cls): ASSUMED (walks cls.mro() / class __dict__s: reflection): the nearest default
+    along the MRO - plain default, default_factory result, override on a plain subclass - as a mutate-safe value
+    (atoms as they are, anything else freshly copied / constructed), MISSING when there is none or it is masked"""
+    qual = "spec_classes.types.attr:Attr.lookup_default_value"
+    recv = "spec_classes.types.attr:Attr"
+    assumed = True
+    reason = "MRO walk over class __dict__s (reflection, A-META); checked by the bounded harness (defaults: plain, mutable, factory, subclass overrides)"
+    raises = {"*": "exc_any"}
+
+    def post(self, c):
+        eng, st = c.eng, c.pre
+        a, k = c.self, eng.to_val(st, c.spec_cls)
+        dv = DV(a, k)
+        missing = sentinel(eng, st, "MISSING")
+        return [("missing", (c.res == missing) == NODEF(a, k)),
+                ("value", z3.Implies(z3.Not(NODEF(a, k)), z3.And(
+                    z3.Not(is_absent(c.res)), deq(c.res, dv), z3.Not(is_sentinel(eng, st, c.res)),
+                    z3.Implies(atomic(st, dv), c.res == dv),
+                    z3.Implies(z3.And(z3.Not(atomic(st, dv)), z3.Not(z3.And(is_spec(eng, st, dv), dnc_class(eng, st, dv)))),
+                               z3.And(is_ref(c.res), a_of(c.res) >= st.alloc, a_of(c.res) < c.post.alloc)),
+                    z3.Implies(is_ref(c.res), a_of(c.res) < c.post.alloc))))]
+
+    def exc_any(self, c):
+        return not_attr_error(c)
+
+
+register(LookupDefaultAssumed)
 
 
 class SpecArgs(Contract):
@@ -700,6 +745,7 @@ class DelAttr(GenMethod):
         st.assume(is_spec(c.eng, st, c.self), is_bool(c.force), is_bool(c.skip_invalidation))
         assume_reach(c.eng, st, c.self)
         ground_invmap_facts(c.eng, st, c.self, [c.attr, STR.val("*")])
+        ground_attr_facts(c.eng, st, c.self, c.attr)
 
     def pre(self, c):
         st = c.pre
@@ -715,8 +761,8 @@ class DelAttr(GenMethod):
         a = eng.to_val(st, c.attr)
         force, skip = b_of(eng.to_val(st, c.force)), b_of(eng.to_val(st, c.skip_invalidation))
         man, aspec = managed(eng, st, o, a)
-        dflt = fld(st, aspec, "default")
-        raw = z3.Or(force, z3.Not(man), dflt == sentinel(eng, st, "MISSING"), b_of(fld(st, aspec, "is_masked")))
+        dflt = DV(aspec, klass(eng, st, o))
+        raw = z3.Or(force, z3.Not(man), b_of(fld(st, aspec, "is_masked")), NODEF(aspec, klass(eng, st, o)))
         return a, force, skip, man, aspec, dflt, raw
 
     def post(self, c):
@@ -1009,8 +1055,8 @@ class ResetAttr(Helper):
         same = self.in_place(c)
         r = c.res
         x1 = z3.Select(D(c.post, r), s_of(nm))
-        dflt = fld(st, a, "default")
-        raw = z3.Or(dflt == sentinel(eng, st, "MISSING"), b_of(fld(st, a, "is_masked")))
+        dflt = DV(a, klass(eng, st, o))
+        raw = z3.Or(b_of(fld(st, a, "is_masked")), NODEF(a, klass(eng, st, o)))
         defs = self.defs if c.side == "verify" else slot_defs(eng, c.post, st, o)
         has_deps = eng.truthy(st, invmap(eng, st, o))
         return [("c05.noop", z3.Implies(z3.Not(active), z3.And(r == o, unchanged_obj(st, c.post, o)))),
